@@ -14,3 +14,11 @@ claim("C18", "other", "lexer-rule language analysis + NEWLINE-skeleton DFA closu
       "The positions the property excludes (array bodies, loop header to first body line) are reported as the structural NEWLINE edges.",
       "Trusted: antlr4 runtime lexer semantics (longest match, first rule wins ties, skip). Not decided: nothing numeric is involved.",
       "DESIGN.md 5/C18")
+
+claim("C13", "proof", "interprocedural effect/provenance analysis (flow-sensitive abstract interpretation over ast, function summaries to a fixpoint)",
+      "Every mutation site (attribute/subscript store, delete, augmented assignment, mutating method, in-place library call, callee summary) in serialize, to_DiGraph, match_template, "
+      "dump(s), numpy_to_blackbird, __len__, is_template and every property getter is shown to target only freshly created objects; in __call__ every mutation targets the deep copy and the returned "
+      "object's reachable origins exclude the template and module state. Obligations = mutation sites + return-value provenance; all discharged on the current tree.",
+      "Trusted: library model (NumPy/SymPy/networkx calls do not mutate arguments except a listed set; deepcopy shares nothing mutable), Python semantics of the subset used. "
+      "Observational equality of serialisations is implied by absence of writes, not computed.",
+      "DESIGN.md 4.5 EFF, 5/C13")
